@@ -227,6 +227,11 @@ def symptom_props(calls, why, family):
     return extra
 
 
+def fhs_file():
+    from hashstore import filehashstore
+    return filehashstore.__file__
+
+
 class ConcEngine(object):
     def __init__(self, prog, keep=False):
         self.prog = prog
@@ -313,7 +318,8 @@ class ConcEngine(object):
                       preempt=prog.get("preempt"), wake=knobs.get("wake", "fifo"),
                       spurious=knobs.get("spurious", 0.0), step_cap=knobs.get("step_cap", S.STEP_CAP_DEFAULT),
                       pct_depth=knobs.get("pct_depth", 2), est_len=knobs.get("est_len", 200),
-                      bound=knobs.get("bound", 2))
+                      bound=knobs.get("bound", 2),
+                      line_trace=(fhs_file() if knobs.get("line_trace") else None))
         calls = []
         clock = [0]
 
@@ -373,6 +379,10 @@ class ConcEngine(object):
         res.flags.add("policy:" + knobs.get("policy", "random"))
         if sch.race_hits:
             res.flags.add("race-postponed-step-met-conflict")
+        if sch.line_trace:
+            res.flags.add("knob:line-trace")
+            res.stats.setdefault("probes", {})
+            res.stats["probes"]["line_level_preemption_points"] = sch.line_points
         res.flags.add("tasks:%d" % len(prog["tasks"]))
         for t in sch.tasks:
             if t.exc is not None:
